@@ -787,6 +787,28 @@ class Inliner:
                 b = _body(fn)
                 if not (len(b) == 1 and isinstance(b[0], ast.Return)) and not _is_generator(fn):
                     ex = as_expression(fn)
+                    if ex is None and any(isinstance(x, ast.Assign) and isinstance(x.targets[0], (ast.Tuple, ast.List)) and isinstance(x.value, ast.Name)
+                                          for x in _body(fn)):
+                        # the helper unpacks one of its parameters (`shift, mask = field`) and the call passes a constant row by name:
+                        # read the helper with that argument written in
+                        try:
+                            _pre, _map = inl._bind(fn, node, bound)
+                            if not _pre:
+                                inst_fn = copy.deepcopy(fn)
+                                inst_fn.body = [_Rename({k_: v_ for k_, v_ in _map.items() if k_ != "self" or True}).visit(x) for x in inst_fn.body]
+                                inst_fn.args = ast.arguments(posonlyargs=[], args=[], kwonlyargs=[], kw_defaults=[], defaults=[])
+                                if resolve_const_rows(inl.repo, inl.ci, inl.sf, inst_fn):
+                                    ex2 = as_expression(propagate_int_constants(split_tuple_assigns(inst_fn)))
+                                    if ex2 is not None:
+                                        for n_ in ast.walk(ex2):
+                                            n_.lineno = getattr(node, "lineno", 1)
+                                            n_.end_lineno = getattr(node, "end_lineno", n_.lineno)
+                                            n_.col_offset = getattr(node, "col_offset", 0)
+                                            n_.end_col_offset = getattr(node, "end_col_offset", 0)
+                                        inl.inlined.append(fn.name)
+                                        return ex2
+                        except CannotInline:
+                            pass
                     if ex is not None:
                         b = [ast.Return(value=ex)]
                 if len(b) == 1 and isinstance(b[0], ast.Return) and b[0].value is not None and not _is_generator(fn):
@@ -1725,6 +1747,7 @@ def normalize(repo: Repo, ci: Optional[ClassInfo], fn: ast.FunctionDef, sf: Opti
                 out = _Rename(env).visit(out)
                 ast.fix_missing_locations(out)
                 number(out)
+    const_rows_unpacked = resolve_const_rows(repo, ci, the_sf, out)
     if any(isinstance(n, ast.Assign) and len(n.targets) == 1 and (
             (isinstance(n.targets[0], (ast.Tuple, ast.List)) and (isinstance(n.value, (ast.Tuple, ast.List))
                                                                   or (isinstance(n.value, ast.Call) and norm(n.value.func) == "divmod")))
@@ -1733,6 +1756,8 @@ def normalize(repo: Repo, ci: Optional[ClassInfo], fn: ast.FunctionDef, sf: Opti
             or (isinstance(n.targets[0], (ast.Tuple, ast.List)) and isinstance(n.value, ast.Name))
             or (isinstance(n.targets[0], ast.Name) and isinstance(n.value, ast.Tuple))) for n in ast.walk(out)):
         out = split_tuple_assigns(out)
+        if const_rows_unpacked:
+            out = propagate_int_constants(out)
     if any(isinstance(n, ast.Attribute) and n.attr in ("pack", "unpack", "unpack_from", "size") for n in ast.walk(out)) or \
             any(isinstance(n, ast.Call) and isinstance(n.func, (ast.Name, ast.Subscript)) for n in ast.walk(out)):
         try:
@@ -2840,6 +2865,82 @@ def propagate_copies(fn: ast.FunctionDef) -> ast.FunctionDef:
                 n.body = [ast.Pass()]
     if not changed_any:
         return fn
+    ast.fix_missing_locations(new)
+    number(new)
+    return new
+
+
+def resolve_const_rows(repo: Repo, ci: Optional[ClassInfo], sf: Optional[SourceFile], out: ast.FunctionDef) -> bool:
+    """In place: `shift, mask = self._LEVEL_MODE` (or through a local bound once to that name) with the class / module constant
+    written as a tuple display of constants gets the display itself as its value.  True when something was rewritten."""
+    if not any(isinstance(n, ast.Assign) and len(n.targets) == 1 and isinstance(n.targets[0], (ast.Tuple, ast.List)) and isinstance(n.value, (ast.Name, ast.Attribute))
+               for n in ast.walk(out)):
+        return False
+    bound_names = {n.id for n in ast.walk(out) if isinstance(n, ast.Name) and isinstance(n.ctx, (ast.Store, ast.Del))} | {a.arg for a in out.args.args}
+    changed_ = False
+    for n in ast.walk(out):
+        if isinstance(n, ast.Assign) and len(n.targets) == 1 and isinstance(n.targets[0], (ast.Tuple, ast.List)) and isinstance(n.value, (ast.Name, ast.Attribute)):
+            src_ = n.value
+            if isinstance(src_, ast.Name) and src_.id in bound_names:
+                from .packed import single_defs as _sd
+                dd = _sd(out).get(src_.id)
+                if isinstance(dd, (ast.Attribute, ast.Name)) and not (isinstance(dd, ast.Name) and dd.id in bound_names):
+                    src_ = dd
+                else:
+                    continue
+            try:
+                d_ = definition_of(repo, ci, sf, src_)
+            except Exception:
+                d_ = None
+            if isinstance(d_, ast.Tuple) and len(d_.elts) == len(n.targets[0].elts) and all(
+                    isinstance(x, ast.Constant) or (isinstance(x, ast.UnaryOp) and isinstance(x.operand, ast.Constant)) for x in d_.elts):
+                n.value = copy.deepcopy(d_)
+                changed_ = True
+    if changed_:
+        ast.fix_missing_locations(out)
+    return changed_
+
+
+def propagate_int_constants(fn: ast.FunctionDef) -> ast.FunctionDef:
+    """A local bound exactly once to an integer literal (`shift = 26` after a constant row was unpacked), not a parameter or loop
+    variable, and bound before every read (straight-line: its definition comes first in source order), is read as the literal."""
+    st0: Dict[str, int] = {}
+    for n in ast.walk(fn):
+        if isinstance(n, ast.Name) and isinstance(n.ctx, (ast.Store, ast.Del)):
+            st0[n.id] = st0.get(n.id, 0) + 1
+    pset = {a.arg for a in fn.args.args + fn.args.kwonlyargs}
+    loop_targets = {m.id for n in ast.walk(fn) if isinstance(n, (ast.For, ast.comprehension)) for m in ast.walk(n.target) if isinstance(m, ast.Name)}
+    consts: Dict[str, ast.Constant] = {}
+    defs_at: Dict[str, int] = {}
+    for n in ast.walk(fn):
+        if isinstance(n, ast.Assign) and len(n.targets) == 1 and isinstance(n.targets[0], ast.Name) and st0.get(n.targets[0].id) == 1 \
+                and n.targets[0].id not in pset and n.targets[0].id not in loop_targets:
+            v = n.value
+            if isinstance(v, ast.UnaryOp) and isinstance(v.op, ast.USub) and isinstance(v.operand, ast.Constant) and isinstance(v.operand.value, int):
+                v = ast.Constant(value=-v.operand.value)
+            if isinstance(v, ast.Constant) and isinstance(v.value, int) and not isinstance(v.value, bool):
+                consts[n.targets[0].id] = v
+                defs_at[n.targets[0].id] = pos(n)
+    for nm in list(consts):
+        if any(isinstance(n, ast.Name) and n.id == nm and isinstance(n.ctx, ast.Load) and pos(n) < defs_at[nm] for n in ast.walk(fn)):
+            del consts[nm]
+    if not consts:
+        return fn
+
+    class K(ast.NodeTransformer):
+        def visit_Assign(self, node):
+            if len(node.targets) == 1 and isinstance(node.targets[0], ast.Name) and node.targets[0].id in consts:
+                return None
+            return self.generic_visit(node)
+
+        def visit_Name(self, node):
+            if isinstance(node.ctx, ast.Load) and node.id in consts:
+                return ast.copy_location(ast.Constant(value=consts[node.id].value), node)
+            return node
+    new = K().visit(copy.deepcopy(fn))
+    for n in ast.walk(new):
+        if isinstance(getattr(n, "body", None), list) and not n.body and not isinstance(n, ast.Module):
+            n.body = [ast.Pass()]
     ast.fix_missing_locations(new)
     number(new)
     return new
